@@ -426,33 +426,33 @@ mutual
           | some (.val v) => some (Val.str k.toList, v)
           | _ => none)
         some (declared ++ extra)
+  /-- how one declared field is rendered (the body of the loop in `to_tree`): `none` = raised, `some none` = key skipped -/
+  def renderField (W : World) : Nat → Cfg → Bool → Option Str → String → SField → Option (Option Val)
+    | _, _, _, _, _, .method => some none
+    | _, _, virt, _, _, .virtual const _ => if virt then some (some const) else some none
+    | fuel, c, virt, mask, k, .sub s' => (match c.get k with
+        | some (.node sub) => (toTree W fuel s' sub virt mask).map (fun t => some (.dict t))
+        | some (.val v) => some (some v)
+        | _ => some none)
+    | fuel, c, virt, mask, k, .ctype s' _ => (match c.get k with
+        | some (.node sub) => (toTree W fuel s' sub virt mask).map (fun t => some (.dict t))
+        | some (.val v) => some (some v)
+        | _ => some none)
+    | fuel, c, virt, mask, k, .cfgList s' _ _ _ => (match c.get k with
+        | some (.nodes cs) => (toTreeItems W fuel s' virt mask cs).map (fun ts => some (.list ts))
+        | some (.val v) => some (some v)
+        | _ => some none)
+    | _, c, _, mask, k, .leaf fs m => (match c.get k with
+        | some (.val v) =>
+          if m.sensitive && mask.isSome then some (some (maskValue (mask.getD []) v))
+          else (match toBasic W.fe fs v with
+            | .ok b => some (some b)
+            | .error _ => none)
+        | _ => some none)
   def toTreeFields (W : World) : Nat → Cfg → Bool → Option Str → List (String × SField) → Option (List (Val × Val))
     | _, _, _, _, [] => some []
     | fuel, c, virt, mask, (k, f) :: rest =>
-      let here : Option (Option Val) :=      -- none = raised; some none = key skipped
-        match f with
-        | .method => some none
-        | .virtual const _ => if virt then some (some const) else some none
-        | .sub s' => (match c.get k with
-            | some (.node sub) => (toTree W fuel s' sub virt mask).map (fun t => some (.dict t))
-            | some (.val v) => some (some v)
-            | _ => some none)
-        | .ctype s' _ => (match c.get k with
-            | some (.node sub) => (toTree W fuel s' sub virt mask).map (fun t => some (.dict t))
-            | some (.val v) => some (some v)
-            | _ => some none)
-        | .cfgList s' _ _ _ => (match c.get k with
-            | some (.nodes cs) => (toTreeItems W fuel s' virt mask cs).map (fun ts => some (.list ts))
-            | some (.val v) => some (some v)
-            | _ => some none)
-        | .leaf fs m => (match c.get k with
-            | some (.val v) =>
-              if m.sensitive && mask.isSome then some (some (maskValue (mask.getD []) v))
-              else (match toBasic W.fe fs v with
-                | .ok b => some (some b)
-                | .error _ => none)
-            | _ => some none)
-      match here, toTreeFields W fuel c virt mask rest with
+      match renderField W fuel c virt mask k f, toTreeFields W fuel c virt mask rest with
       | some (some v), some t => some ((Val.str k.toList, v) :: t)
       | some none, some t => some t
       | _, _ => none
